@@ -1052,6 +1052,12 @@ func c16JS(s string) string { b, _ := json.Marshal(s); return string(b) }
 // c16ValidFile writes a history exactly the way Save lays it out
 // (MarshalIndent, two spaces), with an arbitrary token as max_size.
 func c16ValidFile(n int, maxSize string, lastQ bool, salt int) []byte {
+	return c16ValidFileTS(n, maxSize, lastQ, salt, nil)
+}
+
+// c16ValidFileTS: tsOf (when non-nil) gives, for entry i, the index whose timestamp it carries: files whose entries are not
+// in timestamp order (a clock that was set back, two files merged by hand, an entry dated in the future).
+func c16ValidFileTS(n int, maxSize string, lastQ bool, salt int, tsOf func(i int) int) []byte {
 	var b strings.Builder
 	b.WriteString("{\n  \"entries\": [")
 	t0 := time.Date(2025, 1, 2, 3, 4, 5, 123456789, time.UTC)
@@ -1064,8 +1070,12 @@ func c16ValidFile(n int, maxSize string, lastQ bool, salt int) []byte {
 		if lastQ && i == n-1 {
 			q = "q"
 		}
+		ti := i
+		if tsOf != nil {
+			ti = tsOf(i)
+		}
 		fmt.Fprintf(&b, "\n    {\n      \"query\": %s,\n      \"timestamp\": %s,\n      \"results_count\": %d", c16JS(q),
-			c16JS(t0.Add(time.Duration(i*61+salt)*time.Second).Format(time.RFC3339Nano)), (i*3+salt)%11)
+			c16JS(t0.Add(time.Duration(ti*61+salt)*time.Second).Format(time.RFC3339Nano)), (i*3+salt)%11)
 		if (i+salt)%2 == 0 {
 			fmt.Fprintf(&b, ",\n      \"context\": %s", c16JS("git repository"))
 		}
@@ -1303,6 +1313,17 @@ func c16RunFile(ctx *Ctx, path string, f c16File) {
 		}
 		ctx.R.Guard("C16", "views-after-load", cs, func() {
 			n := len(sh.Entries)
+			before := append([]history.SearchEntry(nil), sh.Entries...)
+			defer func() { // the views only read: afterwards the log holds the same entries in the same order
+				same := len(sh.Entries) == len(before)
+				for i := 0; same && i < len(before); i++ {
+					same = sh.Entries[i].Query == before[i].Query && sh.Entries[i].Timestamp.Equal(before[i].Timestamp) && sh.Entries[i].ResultsCount == before[i].ResultsCount
+				}
+				if !same {
+					ctx.R.Violate(vlib.Violation{Property: "C16", Clause: "content", Path: "Load+views",
+						Detail: "asking for the recent / top / statistics views changed the entries or their order", Witness: cs})
+				}
+			}()
 			distinct := map[string]int{}
 			for _, e := range sh.Entries {
 				distinct[e.Query]++
@@ -1379,6 +1400,72 @@ func engineHistFiles(ctx *Ctx) {
 				c16RunFile(ctx, path, c16File{"truncated", fmt.Sprintf("valid 5-entry file #%d (%d bytes) cut at byte %d", k, len(base), off), base[:off]})
 			}
 		}
+	}
+	// 2b. the same with a byte-order mark in front (what some editors put there), every offset
+	for k := 0; k < ctx.Pick(1, 4); k++ {
+		base := append([]byte("\xef\xbb\xbf"), c16ValidFile(2, "100", false, k)...)
+		for off := 0; off < len(base); off++ {
+			if (off+k)%ctx.NShards == ctx.Shard {
+				c16RunFile(ctx, path, c16File{"truncated", fmt.Sprintf("BOM + valid 2-entry file #%d (%d bytes) cut at byte %d", k, len(base), off), base[:off]})
+			}
+		}
+	}
+	// 2c. every file of one and of two bytes; every file of three (thorough: four) bytes over the bytes that mean something to a
+	// JSON / UTF-8 reader
+	sig := []byte{0x00, 0x09, 0x0a, 0x0d, 0x20, '"', '-', '0', '1', '[', ']', '{', '}', 'n', 't', 'f', ',', ':', '\\', '/', 0x7f, 0x80, 0xbb, 0xbf, 0xc0, 0xc3, 0xef, 0xfe, 0xff, 'a'}
+	idx := 0
+	short := func(b []byte) {
+		idx++
+		if idx%ctx.NShards == ctx.Shard {
+			c16RunFile(ctx, path, c16File{"short", fmt.Sprintf("the %d bytes % x", len(b), b), b})
+			ctx.R.Path("files-short-exhaustive", 1)
+		}
+	}
+	for a := 0; a < 256; a++ {
+		short([]byte{byte(a)})
+		for b := 0; b < 256; b++ {
+			short([]byte{byte(a), byte(b)})
+		}
+	}
+	for _, a := range sig {
+		for _, b := range sig {
+			for _, c := range sig {
+				short([]byte{a, b, c})
+				if ctx.Thorough {
+					for _, d := range sig {
+						short([]byte{a, b, c, d})
+					}
+				}
+			}
+		}
+	}
+	// 2d. valid files whose entries are not in timestamp order
+	for k := 0; k < ctx.Pick(48, 960); k++ {
+		if k%ctx.NShards != ctx.Shard {
+			continue
+		}
+		nn := []int{2, 3, 5, 8, 99, 100, 101}[r.Intn(7)]
+		perm := r.Perm(nn)
+		mode := k % 4
+		tsOf := func(i int) int {
+			switch mode {
+			case 0:
+				return nn - 1 - i // newest first
+			case 1:
+				return perm[i]
+			case 2:
+				return 0 // all equal
+			default:
+				if i == nn/2 {
+					return 1000000 // one entry dated far in the future
+				}
+				return i
+			}
+		}
+		f := c16File{"valid", fmt.Sprintf("as Save writes it: %d entries, timestamps %s", nn, []string{"descending", "shuffled", "all equal", "one in the future"}[mode]),
+			c16ValidFileTS(nn, []string{"100", "100", "5", "1000"}[r.Intn(4)], r.Intn(3) == 0, r.Intn(50), tsOf)}
+		c16RunFile(ctx, path, f)
+		ctx.R.Path("files-timestamps-out-of-order", 1)
 	}
 	// 3. generated
 	n := ctx.N(2300, 46000)
